@@ -165,9 +165,22 @@ func c03Run(r *sim.Run) {
 			return
 		}
 		x, name = s.Buf, "built-init"
+	} else if t.Chance(80) {
+		x = c03TwoProtectedTracks(r)
+		if x == nil {
+			return
+		}
+		name = "two-protected-tracks"
 	} else {
 		i := t.Draw(len(c03Streams))
 		x, name = c03Streams[i], c03Names[i]
+		if objCorpus[i].Progressive && t.Chance(250) {
+			v := work.LayoutVariant{LargeMdat: t.Bool(), MdatFirst: t.Bool(), EmptyMdat: t.Draw(4), EmptyLarge: t.Bool()}
+			if nd, err := work.ApplyLayout(x, v); err == nil {
+				x, name = nd, name+"["+v.String()+"]"
+				r.Probe("layout-variant")
+			}
+		}
 	}
 	if t.Chance(450) || name == "built-init" {
 		units, err := work.ParseUnits(x)
@@ -267,6 +280,84 @@ func c03Run(r *sim.Run) {
 			}
 		}
 	}
+}
+
+// c03TwoProtectedTracks builds a stream with TWO protected tracks whose tenc IV sizes differ (cenc: 16, cbcs: 0 with a
+// constant IV), as sequential single-track fragments after a two-track init. The state the file decoders carry from
+// one traf to the next (sinf/tenc lookup per track) is what this exercises.
+func c03TwoProtectedTracks(r *sim.Run) []byte {
+	t := r.T
+	rnd := t.Sub()
+	ka, kb := make([]byte, 16), make([]byte, 16)
+	rnd.Fill(ka)
+	rnd.Fill(kb)
+	var pa, pb *C06Prod
+	var err error
+	r.Guard("producer A", func() { pa, err = c06Produce(r, "cenc", ka, randIV(t, rnd)) })
+	if err != nil || pa == nil {
+		return nil
+	}
+	r.Guard("producer B", func() { pb, err = c06Produce(r, "cbcs", kb, randIV(t, rnd)) })
+	if err != nil || pb == nil {
+		return nil
+	}
+	cat := func(init []byte, segs [][]byte) []byte {
+		out := append([]byte(nil), init...)
+		for _, s := range segs {
+			out = append(out, s...)
+		}
+		return out
+	}
+	var fa, fb *mp4.File
+	r.Guard("decode A/B", func() {
+		fa, err = decodeMem(cat(pa.EncInit, pa.EncSegs))
+		if err == nil {
+			fb, err = decodeMem(cat(pb.EncInit, pb.EncSegs))
+		}
+	})
+	if err != nil || fa == nil || fb == nil || fa.Init == nil || fb.Init == nil || fb.Init.Moov.Mvex == nil || fb.Init.Moov.Mvex.Trex == nil {
+		return nil
+	}
+	newID := pa.TrackID + 1
+	var out []byte
+	r.Guard("merge", func() {
+		trakB := fb.Init.Moov.Trak
+		trakB.Tkhd.TrackID = newID
+		trexB := fb.Init.Moov.Mvex.Trex
+		trexB.TrackID = newID
+		fa.Init.Moov.AddChild(trakB)
+		fa.Init.Moov.Mvex.AddChild(trexB)
+		fa.Init.Moov.Mvhd.NextTrackID = newID + 1
+		s := sim.NewSink(nil)
+		if err = fa.Init.Encode(s); err != nil {
+			return
+		}
+		out = s.Buf
+		n := len(pa.EncSegs)
+		if len(fb.Segments) > n {
+			n = len(fb.Segments)
+		}
+		for i := 0; i < n; i++ {
+			if i < len(pa.EncSegs) {
+				out = append(out, pa.EncSegs[i]...)
+			}
+			if i < len(fb.Segments) {
+				for _, fr := range fb.Segments[i].Fragments {
+					fr.Moof.Traf.Tfhd.TrackID = newID
+				}
+				s := sim.NewSink(nil)
+				if err = fb.Segments[i].Encode(s); err != nil {
+					return
+				}
+				out = append(out, s.Buf...)
+			}
+		}
+	})
+	if err != nil {
+		return nil
+	}
+	r.Probe("two-protected-tracks-stream")
+	return out
 }
 
 // c03Encoders: Encode(w) vs EncodeSW(sw) on one node: identical bytes or both fail; with the same
